@@ -27,7 +27,9 @@ def cases(tier, seed):
                 combos.append((list(lens), b))
     if tier == "quick":
         combos = rng.sample(combos, 260)
-    combos += [([1000, 999, 1], 250), ([12345, 678], 1000), ([5, 5, 5], 5), ([100], 100), ([100], 101), ([7], 1)]
+    combos += [([1000, 999, 1], 250), ([12345, 678], 1000), ([5, 5, 5], 5), ([100], 100), ([100], 101), ([7], 1),
+               # widths whose reciprocal is not exact in binary floating point, lengths that are multiples of them
+               ([490, 343], 49), ([980, 99], 98), ([1030, 515], 103), ([749], 107), ([1127, 161], 161), ([935], 187)]
     for k, (lens, b) in enumerate(combos):
         yield "ext.binnify", {"lens": lens, "b": b, "relbase": k % 2, "header": k % 3 == 0}
     # inference on every valid table
@@ -36,6 +38,7 @@ def cases(tier, seed):
     else:
         tables = list(gen.all_tables(2, 5)) + rng.sample(list(gen.all_tables(3, 4)), 1200) + list(gen.all_tables(1, 8))
     tables += list(gen.REPRESENTATIVE_TABLES.values())
+    tables += [gen.binnify([490, 343], 49), gen.binnify([721], 103), gen.binnify([980, 100], 98)]
     tables += [gen.binnify([7, 5], 3), gen.binnify([6, 6, 2], 2), gen.binnify([9], 4), gen.binnify([3, 7, 2], 5),
                [[0, 0, 10], [0, 10, 20], [0, 20, 45]], [[0, 0, 10], [0, 10, 20], [1, 0, 25]],
                [[0, 0, 25], [1, 0, 10], [1, 10, 20]], [[0, 0, 10], [0, 10, 15], [1, 0, 10], [1, 10, 20], [1, 20, 21]]]
